@@ -337,8 +337,10 @@ def judge_readback(solved_stored, solution_text, res, classes_by_name, year, F, 
             if m and int(m.group(1)) != year:
                 fs.append(F('C14', 'C14.year', 'template-year', f'template {f["template"]} used for a {year} solution'))
         if res.filler is not None and hasattr(res.filler, 'forms'):
+            # the forms interpreting the solution must come from the solving year's catalogue (judged by catalogue
+            # membership, not by the tax_year label a form class carries - labels are C17's business)
+            year_classes = set(classes_by_name.values())
             for fo in res.filler.forms:
-                ty = getattr(fo, '_tax_year', None)
-                if ty is not None and ty != year and year < 9000:
-                    fs.append(F('C14', 'C14.year', 'form-year', f'form {fo.name()} of tax year {ty} used to interpret a {year} solution'))
+                if type(fo) not in year_classes:
+                    fs.append(F('C14', 'C14.year', 'form-year', f'form {fo.name()} ({type(fo).__module__}) is not from the {year} catalogue'))
     return fs, {'source': source, 'values': len(cmp_vals)}
